@@ -93,7 +93,10 @@ class Ctx:
     def __init__(self, pid: str, tier: str, seed: int):
         self.pid, self.tier, self.seed = pid, tier, seed
         self.t0 = time.time()
-        self.work = os.path.join(VERIF, ".work", pid)
+        # runs against a scratch tree (LV_REPO, mutation drills) get their own work directory so that
+        # several drills of the same property can run side by side with the real check
+        tag = pid if os.path.realpath(REPO) == "/repo" else pid + "-" + hashlib.sha1(os.path.realpath(REPO).encode()).hexdigest()[:8]
+        self.work = os.path.join(VERIF, ".work", tag)
         shutil.rmtree(self.work, ignore_errors=True)
         os.makedirs(self.work, exist_ok=True)
         self.obligations = 0
